@@ -1161,6 +1161,10 @@ class Exec:
             if not isinstance(r, (list, Enter, Diverge)):
                 return then(st, r)
             raise NotEncoded('continuation over effectful alternatives')
+        if isinstance(clo, Agg) and clo.kind == 'variant' and not clo.fields:
+            # an enum-variant constructor used as a function value (`.map(Either::Left)`)
+            r = Agg('variant', clo.name, clo.variant, list(args))
+            return then(st, r) if then is not None else r
         if not (isinstance(clo, Agg) and clo.kind == 'closure'):
             raise NotEncoded(f'not a closure: {clo!r}')
         m = re.search(r'\{closure@([^}]*)\}', clo.name)
